@@ -89,17 +89,18 @@ fn lex_hostport(source: &[char]) -> Option<usize> {
     let hostname_end = lex_hostname(source)?;
 
     if source.get(hostname_end) == Some(&':') {
-        Some(
-            source
-                .iter()
-                .enumerate()
-                .find(|(_, c)| !{
-                    let c = **c;
-                    c.is_ascii_digit()
-                })
-                .map(|(i, _)| i)
-                .unwrap_or(source.len()),
-        )
+        // The port is the run of digits after the colon.
+        let port_len = source[hostname_end + 1..]
+            .iter()
+            .take_while(|c| c.is_ascii_digit())
+            .count();
+
+        if port_len == 0 {
+            // A colon that is not followed by a port belongs to the surrounding text.
+            Some(hostname_end)
+        } else {
+            Some(hostname_end + 1 + port_len)
+        }
     } else {
         Some(hostname_end)
     }
